@@ -7,7 +7,8 @@ Local Open Scope Z_scope.
 
 Definition meth_code (m : meth) : Z :=
   match m with MAdd => 0 | MMul => 1 | MGet => 2 | MSub => 3 | MDiv => 4 | MBoom => 5
-             | MHidden => 6 | MSecret => 7 | MDunder => 8 | MNoSuch => 9 | MDotted => 10 end.
+             | MHidden => 6 | MSecret => 7 | MDunder => 8 | MNoSuch => 9 | MDotted => 10
+             | MLen => 11 | MGetItem => 12 | MGated => 13 | MDSecret => 14 | MDHidden => 15 | MDDel => 16 end.
 Definition acall_eqb (a b : acall) : bool :=
   (meth_code (c_meth a) =? meth_code (c_meth b)) && (c_arg a =? c_arg b).
 Definition why_eqb (a b : why) : bool :=
@@ -58,7 +59,8 @@ Definition check_one (c : case1) : bool :=
    object's total afterwards, the calls executed during it and what the submitting call did
    (returned nothing / raised e / returned a generator); for a pull the items obtained *)
 Inductive skind := KNothing | KRaised (e : aexn) | KGen.
-Inductive hobs := OQ | OS (st : Z) (log : list acall) (k : skind) | OI (outs : list (outcome Z aexn)).
+Inductive hobs := OQ | OQRaised   (* queueing the call raised on the client: never happens in the model *)
+              | OS (st : Z) (log : list acall) (k : skind) | OI (outs : list (outcome Z aexn)).
 Record hcase := { h_keep : bool;      (* probed: does the queue survive a submission that raised? *)
                   h_s0 : Z; h_events : list (event acall); h_obs : list hobs; h_final : Z }.
 
